@@ -8,6 +8,7 @@
 #define ENV_NFD		12
 #define ENV_NFAULT	16
 #define ENV_LOGSZ	256
+#define ENV_NMARK	8
 #define ENV_OK		0
 #define ENV_FAIL	1
 #define ENV_SHORT	2
@@ -36,6 +37,9 @@ extern int env_calls, env_faults_hit, env_shorts_hit, env_opens, env_read_chunk;
 extern char env_log[ENV_LOGSZ];
 extern int env_log_len;
 extern const char *env_exinit, *env_lines, *env_columns;
+extern int env_mark_at[ENV_NMARK], env_nmarks;
+extern long env_mark_tty[ENV_NMARK];
+extern void (*env_mark_fn)(int k);
 
 int env_mkfile(const char *name, const char *data, int len, long mtime);
 int env_find(const char *path);
